@@ -123,6 +123,17 @@ def run(ck):
                ["Defvar", "Id", "Equal", "Id", "LBrace", "IntVal", "IntVal", "RBrace", "Semi"],                # x{3 -0}
                ["Defvar", "Id", "Equal", "Id", "LBrace", "IntVal", "Minus", "IntVal", "Comma", "IntVal", "RBrace", "Semi"],
                ["Defvar", "Id", "Equal", "LParen", "Id", "Id", "Colon", "VarName", "Comma", "IntVal", "RParen", "Semi"]]
+    # argument lists inside argument lists: named and positional arguments of an inner class value next to those of the outer list
+    inner_named = ["Id", "Less", "Id", "Equal", "IntVal", "Greater"]
+    inner_pos = ["Id", "Less", "IntVal", "Greater"]
+    for outer_head in (["Def", "Id", "Colon"], ["Class", "Id", "Colon"], ["Defm", "Id", "Colon"], ["Defvar", "Id", "Equal"]):
+        for args in ([inner_named, ["IntVal"]], [["IntVal"], inner_named], [inner_named, inner_pos], [inner_pos, inner_named, ["IntVal"]],
+                     [["LSquare"] + inner_named + ["RSquare"], ["StrVal"]], [inner_named, ["Id", "Equal", "IntVal"]], [["Id", "Equal"] + inner_named, ["Id", "Equal", "IntVal"]],
+                     [inner_named + ["Dot", "Id"], ["IntVal"], ["Id", "Equal", "IntVal"]]):
+            flat = []
+            for k_, a_ in enumerate(args):
+                flat += ([] if k_ == 0 else ["Comma"]) + a_
+            vbases.append(outer_head + ["Id", "Less"] + flat + ["Greater", "Semi"])
     phrases = [[k] for k in ["Paste", "Dot", "LBrace", "RBrace", "LSquare", "RSquare", "Less", "Greater", "Colon", "Comma", "IntVal", "Id", "StrVal",
                              "Minus", "DotDotDot", "Question", "LParen", "RParen", "Equal", "VarName"]]
     phrases += [["Paste", "Id"], ["Dot", "Id"], ["LBrace", "IntVal", "RBrace"], ["LSquare", "IntVal", "RSquare"], ["Less", "Int", "Greater"],
